@@ -137,6 +137,8 @@ def check_config(ctx, F, tag):
     ctx.ob("C19.R2.validation-only-refuses", lb.name + tag, loc(lb.raw["span"]), len(errk) >= 4 and not leak, "cfg-reachability",
            "%d validation failure blocks; aggregate reachable from one: %s" % (len(errk), leak))
 
+    check_validation_formulas(ctx, F, tag)
+
     # ---------------- R3 composite loaders
     check_composite_loaders(ctx, F, tag, "C19.R3")
 
@@ -229,3 +231,106 @@ def check_composite_loaders(ctx, F, tag, prefix):
             detail += "%s<-%s; " % (f, tstr(t)[:50])
     ctx.ob(prefix + ".rl-load-rebuilds-indexes", rl.name + tag, loc(rl.raw["span"]), ok, "term-provenance", detail)
 
+
+
+def abstract_quantity(F, t, env, depth=0):
+    """Evaluates a term over a bitvector into the abstract domain {LEN, ONES, ('sub', a, b)}; env maps terms to symbols. None if unknown."""
+    t = core(t)
+    if depth > 8:
+        return None
+    for k, v in env:
+        if core(k) == t:
+            return v
+    if t[0] == "bin" and t[1] == "Sub":
+        a, b = abstract_quantity(F, t[2], env, depth + 1), abstract_quantity(F, t[3], env, depth + 1)
+        return ("sub", a, b) if a is not None and b is not None else None
+    if t[0] == "call" and len(t[2]) == 1:
+        written = t[4] if len(t) > 4 else t[1]
+        meth = written.split("::")[-1]
+        # resolve through crate bodies whose single argument is the bitvector
+        name = t[1]
+        if meth == "len" and ("BitVec" in written or "BitVec" in name):
+            return "LEN" if abstract_is_parent(t[2][0], env) else None
+        if meth == "count_ones" and ("BitVec" in written or "BitVec" in name):
+            return "ONES" if abstract_is_parent(t[2][0], env) else None
+        if F.has_body(name):
+            cb = F.body(name)
+            inner_env = [(("param", 0, cb.local_name(1)), "PARENT")]
+            if abstract_is_parent(t[2][0], env):
+                return abstract_quantity(F, cb.term_of_local(0), inner_env, depth + 1)
+    return None
+
+
+def abstract_is_parent(t, env):
+    t = core(t)
+    return any(core(k) == t and v == "PARENT" for k, v in env)
+
+
+def check_validation_formulas(ctx, F, tag):
+    """The block/superblock counts BitVector::load validates against are the counts the builders produce, for each support kind."""
+    lb = F.body("<bit_vector::BitVector as serialize::Serialize>::load")
+    L = serfmt.load_seq(lb)
+    if len(L) < 2 or L[0]["payload"] is None or L[1]["payload"] is None:
+        raise Undecided("BitVector::load shape")
+    ones_t = lb.term_of_local(L[0]["payload"])
+    data_t = lb.term_of_local(L[1]["payload"])
+    env = [(ones_t, "ONES")]
+    # data.len() -> LEN
+    def loader_quantity(t):
+        t = core(t)
+        if t == core(ones_t):
+            return "ONES"
+        if t[0] == "call" and t[1] == "raw_vector::RawVector::len" and core(t[2][0]) == core(data_t):
+            return "LEN"
+        if t[0] == "bin" and t[1] == "Sub":
+            a, b = loader_quantity(t[2]), loader_quantity(t[3])
+            return ("sub", a, b) if a is not None and b is not None else None
+        return None
+    # builders
+    expected = {}
+    rb = F.body("bit_vector::rank_support::RankSupport::new")
+    sb = F.body("bit_vector::select_support::SelectSupport::<T>::new")
+    def builder_count(b, varname):
+        for i, l in enumerate(b.locals):
+            if l["name"] == varname:
+                t = core(b.term_of_local(i))
+                env_ = {}
+                if m(Bin("Div", Bin("Sub", Bin("Add", Bind("q"), Bind("c")), Const(1)), Bind("c2")), t, env_) and core(env_["c"]) == core(env_["c2"]):
+                    return env_["q"], env_["c"]
+        return None, None
+    q, c = builder_count(rb, "blocks")
+    if q is None:
+        raise Undecided("RankSupport::new: block count formula not recognised")
+    expected["rank"] = (abstract_quantity(F, q, [(("param", 0, rb.local_name(1)), "PARENT")]), core(c)[1])
+    q, c = builder_count(sb, "superblocks")
+    if q is None:
+        raise Undecided("SelectSupport::new: superblock count formula not recognised")
+    for trans, key in (("bit_vector::Identity", "select"), ("bit_vector::Complement", "select_zero")):
+        co = F.body("<%s as bit_vector::Transformation>::count_ones" % trans)
+        expected[key] = (abstract_quantity(F, co.term_of_local(0), [(("param", 0, co.local_name(1)), "PARENT")]), core(c)[1])
+    # loader validations
+    dru = F.body("bits::div_round_up")
+    okdru = m(Bin("Div", Bin("Sub", Bin("Add", Param(0), Param(1)), Const(1)), Param(1)), dru.term_of_local(0))
+    ctx.ob("C19.R2.div-round-up-formula", "bits::div_round_up" + tag, loc(dru.raw["span"]), okdru, "formula", "div_round_up(v, n) = %s (the builders' (v + n - 1) / n)" % tstr(dru.term_of_local(0)), nontrivial=False)
+    found = {}
+    from guards import edge_facts
+    for u, v, f in edge_facts(lb):
+        if f[0] == "cmp" and f[1] == "Ne":
+            for x, y in ((f[2], f[3]), (f[3], f[2])):
+                x0, y0 = core(x), core(y)
+                if x0[0] == "call" and x0[1].split("::")[-1] in ("blocks", "superblocks") and y0[0] == "call" and y0[1] == "bits::div_round_up":
+                    # which loaded option is it?
+                    which = None
+                    for k, fld in enumerate(OPTION_FIELDS):
+                        pl_ = L[2 + k]["payload"] if len(L) > 2 + k else None
+                        if pl_ is not None and any(core(z) == core(lb.term_of_local(pl_)) for z in subterms(x0)):
+                            which = fld
+                    cst = core(y0[2][1])
+                    found[which] = (loader_quantity(y0[2][0]), cst[1] if cst[0] == "const" else None, loc(lb.blocks[u]["term"]["sp"]), v)
+    for fld in OPTION_FIELDS:
+        exp = expected[fld]
+        got = found.get(fld)
+        ok = got is not None and got[0] == exp[0] and got[1] == exp[1] and exp[0] is not None
+        ctx.ob("C19.R2.validation-matches-builder", "%s%s" % (fld, tag), got[2] if got else loc(lb.raw["span"]), ok, "sibling-agreement",
+               "load accepts %s support only with ceil(%s / %s) blocks; the builder produces ceil(%s / %s)" % (
+                   fld, got[0] if got else "?", got[1] if got else "?", exp[0], exp[1]))
